@@ -25,6 +25,7 @@ package main
 // guards of the writing blocks say about the written values.
 
 import (
+	"os"
 	"fmt"
 	"go/constant"
 	"go/token"
@@ -70,6 +71,9 @@ type oframe struct {
 	depth int
 	// orig: for parameters that are not strings, the value they stand for in the outermost frame
 	orig map[ssa.Value]ssa.Value
+	// elems: the element of a list of known length that a value of this frame stands for, while the loop that maps
+	// over the list is evaluated for that element
+	elems map[ssa.Value]boundVal
 	// args: what each parameter stands for in the calling frame
 	args map[ssa.Value]boundVal
 	// parent / callBlock: the frame this one was entered from, and the block of the call
@@ -139,6 +143,9 @@ func (oe *outEval) fieldValue(base ssa.Value, field int, fr *oframe, depth int) 
 			return oe.fieldValue(b.v, field, b.fr, depth+1)
 		}
 	case *ssa.UnOp:
+		if eb, ok := fr.elems[x]; ok {
+			return oe.fieldValue(eb.v, field, eb.fr, depth+1)
+		}
 		if x.Op == token.MUL {
 			return oe.fieldValue(x.X, field, fr, depth+1)
 		}
@@ -284,6 +291,9 @@ func (oe *outEval) safeStructContent(v ssa.Value, b *ssa.BasicBlock, fr *oframe)
 			}
 		}
 	case *ssa.UnOp:
+		if eb, ok := fr.elems[x]; ok {
+			return oe.safeStructContent(eb.v, eb.fr.fn.Blocks[0], eb.fr)
+		}
 		if al, ok := x.X.(*ssa.Alloc); ok && x.Op == token.MUL {
 			var alts []*lx
 			for _, ref := range *al.Referrers() {
@@ -701,6 +711,9 @@ func (oe *outEval) callLx(call *ssa.Call, idx int, b *ssa.BasicBlock, fr *oframe
 			}
 			return &lx{Kind: "join", Parts: parts}
 		}
+		if parts, ok := oe.listLx(c.Args[0], call.Block(), fr, 0); ok {
+			return &lx{Kind: "join", Parts: parts}
+		}
 		return oe.note("a path join of a list the evaluator cannot follow at %s", oe.p.Pos(call.Pos()))
 	case "strconv.Quote":
 		return &lx{Kind: "named", Name: "goquote"}
@@ -738,7 +751,8 @@ func (oe *outEval) fromURLSanitized(v ssa.Value) bool {
 }
 
 // inlineLx: the union over the returns of a repository function of the language of result #idx.
-func (oe *outEval) inlineLx(f *ssa.Function, args []ssa.Value, idx int, b *ssa.BasicBlock, fr *oframe) *lx {
+// withCalleeFrame evaluates body in the frame of a call of f (parameters bound to the arguments in the calling frame).
+func (oe *outEval) withCalleeFrame(f *ssa.Function, args []ssa.Value, b *ssa.BasicBlock, fr *oframe, body func(fr2 *oframe) *lx) *lx {
 	if fr.depth >= 5 || oe.active[f] > 0 {
 		return lxAny()
 	}
@@ -784,32 +798,38 @@ func (oe *outEval) inlineLx(f *ssa.Function, args []ssa.Value, idx int, b *ssa.B
 	oe.seedFieldTerms(fr2, b, fr)
 	oe.active[f]++
 	defer func() { oe.active[f]-- }()
-	var alts []*lx
-	for _, ret := range Returns(f) {
-		if idx >= len(ret.Results) {
-			return lxAny()
-		}
-		// return f(x): value and error of one call handed on together — the caller's test of the error covers it
-		if ex, ok := ret.Results[idx].(*ssa.Extract); ok && len(ret.Results) >= 2 {
-			if ex2, ok := ret.Results[len(ret.Results)-1].(*ssa.Extract); ok && ex2.Tuple == ex.Tuple {
-				if c, ok := ex.Tuple.(*ssa.Call); ok {
-					if oe.forwarded == nil {
-						oe.forwarded = map[*ssa.Call]bool{}
+	return body(fr2)
+}
+
+func (oe *outEval) inlineLx(f *ssa.Function, args []ssa.Value, idx int, b *ssa.BasicBlock, fr *oframe) *lx {
+	return oe.withCalleeFrame(f, args, b, fr, func(fr2 *oframe) *lx {
+		var alts []*lx
+		for _, ret := range Returns(f) {
+			if idx >= len(ret.Results) {
+				return lxAny()
+			}
+			// return f(x): value and error of one call handed on together — the caller's test of the error covers it
+			if ex, ok := ret.Results[idx].(*ssa.Extract); ok && len(ret.Results) >= 2 {
+				if ex2, ok := ret.Results[len(ret.Results)-1].(*ssa.Extract); ok && ex2.Tuple == ex.Tuple {
+					if c, ok := ex.Tuple.(*ssa.Call); ok {
+						if oe.forwarded == nil {
+							oe.forwarded = map[*ssa.Call]bool{}
+						}
+						oe.forwarded[c] = true
 					}
-					oe.forwarded[c] = true
 				}
 			}
+			// the caller uses the value only where the error is nil: returns with a certainly non-nil error do not count
+			if n := len(ret.Results); n >= 2 && idx != n-1 && isErrorType(ret.Results[n-1].Type()) && certainlyNonNil(ret.Results[n-1], ret.Block()) {
+				continue
+			}
+			alts = append(alts, oe.strLx(ret.Results[idx], ret.Block(), fr2))
 		}
-		// the caller uses the value only where the error is nil: returns with a certainly non-nil error do not count
-		if n := len(ret.Results); n >= 2 && idx != n-1 && isErrorType(ret.Results[n-1].Type()) && certainlyNonNil(ret.Results[n-1], ret.Block()) {
-			continue
+		if len(alts) == 0 {
+			return &lx{Kind: "none"}
 		}
-		alts = append(alts, oe.strLx(ret.Results[idx], ret.Block(), fr2))
-	}
-	if len(alts) == 0 {
-		return &lx{Kind: "none"}
-	}
-	return lxAlt(alts...)
+		return lxAlt(alts...)
+	})
 }
 
 // ---- buffers ---------------------------------------------------------------------------------
@@ -817,6 +837,10 @@ func (oe *outEval) inlineLx(f *ssa.Function, args []ssa.Value, idx int, b *ssa.B
 // symSetAt: the values of the scan-loop variable v for which control can reach block b.
 func (oe *outEval) symSetAt(v ssa.Value, b *ssa.BasicBlock) *relang.Set {
 	if c, ok := v.(*ssa.Convert); ok {
+		// a conversion that can lose bits (byte(r) for a rune r) does not write the scanned symbol
+		if narrowingConversion(c) {
+			return nil
+		}
 		v = c.X
 	}
 	var header *ssa.BasicBlock
@@ -1907,4 +1931,201 @@ func (oe *outEval) topFrame(fn *ssa.Function) *oframe {
 	}
 	oe.seedFieldTerms(fr, nil, nil)
 	return fr
+}
+
+// ---- lists of known length ---------------------------------------------------------------------
+
+// listVals: the elements of the slice v when it is a literal of known length (in this frame or, for a parameter,
+// in the frame of the caller).
+func (oe *outEval) listVals(v ssa.Value, fr *oframe, depth int) ([]boundVal, bool) {
+	if depth > 5 {
+		return nil, false
+	}
+	if args, ok := variadicArgs(v); ok {
+		var out []boundVal
+		for _, a := range args {
+			out = append(out, boundVal{a, fr})
+		}
+		return out, true
+	}
+	if prm, ok := v.(*ssa.Parameter); ok {
+		if b, ok := fr.args[prm]; ok {
+			return oe.listVals(b.v, b.fr, depth+1)
+		}
+	}
+	return nil, false
+}
+
+// listLx: the []string value v as a list of known length of languages.
+func (oe *outEval) listLx(v ssa.Value, b *ssa.BasicBlock, fr *oframe, depth int) ([]*lx, bool) {
+	if depth > 4 {
+		return listDbg(1)
+	}
+	if vals, ok := oe.listVals(v, fr, 0); ok {
+		if sl, isSlice := v.Type().Underlying().(*types.Slice); isSlice && isStringish(sl.Elem()) {
+			var parts []*lx
+			for _, e := range vals {
+				parts = append(parts, oe.strLx(e.v, e.fr.fn.Blocks[0], e.fr))
+			}
+			return parts, true
+		}
+		return listDbg(2)
+	}
+	call, ok := v.(*ssa.Call)
+	if !ok {
+		if os.Getenv("LIST_DEBUG") != "" {
+			fmt.Printf("listLx: not a call: %T %s\n", v, v)
+		}
+		return listDbg(3)
+	}
+	g := staticCallee(call.Common())
+	if g == nil || g.Blocks == nil || g.Pkg == nil || !strings.HasPrefix(g.Pkg.Pkg.Path(), modulePath) {
+		return listDbg(4)
+	}
+	// g maps a function over a list: acc = append(acc, f(list[i])) in its only loop, and returns acc
+	hs := loopHeaders(g)
+	if len(hs) != 1 {
+		return listDbg(5)
+	}
+	h := hs[0]
+	in := loopBlocks(h)
+	var acc *ssa.Phi
+	var step *ssa.Call
+	for _, ins := range h.Instrs {
+		phi, ok := ins.(*ssa.Phi)
+		if !ok {
+			continue
+		}
+		if _, isSlice := phi.Type().Underlying().(*types.Slice); !isSlice {
+			continue
+		}
+		for i, e := range phi.Edges {
+			if !in[h.Preds[i]] {
+				// the initial value: an empty slice
+				switch y := e.(type) {
+				case *ssa.Const:
+					if y.Value != nil {
+						return listDbg(6)
+					}
+				case *ssa.MakeSlice:
+					if k, ok := constInt(y.Len); !ok || k != 0 {
+						return listDbg(7)
+					}
+				default:
+					return listDbg(8)
+				}
+				continue
+			}
+			c, ok := e.(*ssa.Call)
+			if !ok {
+				return listDbg(9)
+			}
+			if bi, ok := c.Common().Value.(*ssa.Builtin); !ok || bi.Name() != "append" || len(c.Common().Args) != 2 || c.Common().Args[0] != ssa.Value(phi) {
+				return listDbg(10)
+			}
+			step = c
+		}
+		acc = phi
+	}
+	if acc == nil || step == nil {
+		return listDbg(11)
+	}
+	for _, ret := range Returns(g) {
+		if len(ret.Results) != 1 || ret.Results[0] != ssa.Value(acc) {
+			return listDbg(12)
+		}
+	}
+	added, ok := variadicArgs(step.Common().Args[1])
+	if !ok || len(added) != 1 {
+		return listDbg(13)
+	}
+	// the element of this iteration: loads of list[i] with list a parameter of g
+	var list *ssa.Parameter
+	var elemLoads []ssa.Value
+	for blk := range in {
+		for _, ins := range blk.Instrs {
+			ia, ok := ins.(*ssa.IndexAddr)
+			if !ok {
+				continue
+			}
+			prm, ok := ia.X.(*ssa.Parameter)
+			if !ok {
+				continue // the one-element array of the append
+			}
+			if list != nil && prm != list {
+				return listDbg(14)
+			}
+			list = prm
+			for _, ref := range *ia.Referrers() {
+				ld, ok := ref.(*ssa.UnOp)
+				if !ok || ld.Op != token.MUL {
+					return listDbg(15)
+				}
+				elemLoads = append(elemLoads, ld)
+			}
+		}
+	}
+	if list == nil || len(elemLoads) == 0 {
+		return listDbg(16)
+	}
+	var parts []*lx
+	okAll := true
+	res := oe.withCalleeFrame(g, call.Common().Args, b, fr, func(fr0 *oframe) *lx {
+		vals, ok := oe.listVals(list, fr0, 0)
+		if !ok {
+			okAll = false
+			return lxAny()
+		}
+		for _, e := range vals {
+			// a frame of its own for every element: nothing computed for one element is reused for the next
+			fr2 := *fr0
+			fr2.bind = map[ssa.Value]*lx{}
+			for k, v := range fr0.bind {
+				if _, isPrm := k.(*ssa.Parameter); isPrm {
+					fr2.bind[k] = v
+				}
+			}
+			fr2.elems = map[ssa.Value]boundVal{}
+			for _, ld := range elemLoads {
+				fr2.elems[ld] = e
+			}
+			parts = append(parts, oe.strLx(added[0], step.Block(), &fr2))
+		}
+		return lxLit("")
+	})
+	_ = res
+	if !okAll {
+		return listDbg(17)
+	}
+	return parts, true
+}
+
+func listDbg(n int) ([]*lx, bool) {
+	if os.Getenv("LIST_DEBUG") != "" {
+		fmt.Println("listLx: reject", n)
+	}
+	return nil, false
+}
+
+// narrowingConversion: an integer conversion to a type with fewer bits than its operand's.
+func narrowingConversion(c *ssa.Convert) bool {
+	size := func(t types.Type) int {
+		b, ok := t.Underlying().(*types.Basic)
+		if !ok {
+			return 0
+		}
+		switch b.Kind() {
+		case types.Int8, types.Uint8:
+			return 1
+		case types.Int16, types.Uint16:
+			return 2
+		case types.Int32, types.Uint32:
+			return 4
+		case types.Int, types.Uint, types.Int64, types.Uint64, types.Uintptr:
+			return 8
+		}
+		return 0
+	}
+	from, to := size(c.X.Type()), size(c.Type())
+	return from > 0 && to > 0 && to < from
 }
